@@ -29,6 +29,7 @@ type kop struct {
 	Inst int    `json:"inst"` // keystore instance (mod)
 	ID   int    `json:"id"`   // index into the id pool
 	N    int    `json:"n,omitempty"`
+	Wipe bool   `json:"wipe,omitempty"` // create / get: the caller wipes the key object it was handed once it is done with it
 }
 
 type c20Prog struct {
@@ -51,6 +52,9 @@ func genC20(t *rapid.T) c20Prog {
 		o := kop{Kind: rapid.SampledFrom(kinds).Draw(t, "kind"), Inst: rapid.IntRange(0, p.Instances-1).Draw(t, "inst"), ID: rapid.IntRange(0, len(idPool)-1).Draw(t, "id")}
 		if o.Kind == "createfail" {
 			o.N = rapid.IntRange(0, 1).Draw(t, "retry") // 1: the creation is tried again at once
+		}
+		if o.Kind == "create" || o.Kind == "get" {
+			o.Wipe = rapid.IntRange(0, 3).Draw(t, "wipe") == 0
 		}
 		if o.Kind == "burst" {
 			if bursts >= 2 {
@@ -172,6 +176,10 @@ func runC20(tb ev.TB, p c20Prog) ev.Result {
 					tb.Fatalf("op #%d CreateKey(%q): %v", i, id, err)
 				}
 				noteCreate(id, in, i, k)
+				if o.Wipe {
+					wipe(k)
+					classes["caller-wipes-the-key-object-it-got"] = true
+				}
 				// immediately visible on the creating instance
 				if ok, err := ks.HasKey(ctx, id); !ok || err != nil {
 					tb.Fatalf("op #%d: HasKey(%q) right after CreateKey = %v, %v", i, id, ok, err)
@@ -188,6 +196,10 @@ func runC20(tb ev.TB, p c20Prog) ev.Result {
 				}
 				if !bytes.Equal(pub(k), want) {
 					tb.Fatalf("op #%d GetKey(%q) on instance %d returned a different key than the one created", i, id, in)
+				}
+				if o.Wipe {
+					wipe(k)
+					classes["caller-wipes-the-key-object-it-got"] = true
 				}
 				if remote(id, in) {
 					nt = true
@@ -392,4 +404,11 @@ func TestC20(t *testing.T) {
 	c.Rule = "stateful model-based generation: 3-30 operations on 1-3 keystore instances sharing one datastore: create(id) (only for ids absent from the model, as every caller does), create with a failing datastore write (must fail and leave the id absent on every instance), get, has, reopen(instance), createBurst(130-300 fresh ids, beyond the 128-entry cache), createIdentity(id) on two instances; ids from a pool with slashes, unicode, spaces, long and hex-like names. Model = map id -> public key. has must be true exactly for created ids (false with an error counts as absent), get must return the created key or an error; identities created twice must be identical (incl. signatures), the id signature must verify under the published key over the id, the public-key signature under the key the id denotes over hex(publicKey || idSignature), and an entry signed with the identity - also through the provider object another identity was created with - must carry and verify under the published key; a final sweep queries every key on every instance and on a brand-new one. Non-trivial = a present id queried on another instance, after a reopen or after eviction (burst); distinct = distinct program."
 	c.Assumptions = []string{"no two ids of the pool alias under the datastore's key cleaning (the pool has one id with a leading and one with a trailing slash, but not their cleaned twins; double slashes and dot segments are left out): the datastore cleans key paths, so ids that clean to the same path are one key by construction", "create is only issued for ids that do not exist (CreateKey overwrites by design)"}
 	ev.Check(t, "C20", genC20, runC20)
+}
+
+// wipe clears the private key object a caller was handed (key hygiene: the object is the caller's).
+func wipe(k crypto.PrivKey) {
+	if sk, ok := k.(*crypto.Secp256k1PrivateKey); ok && sk != nil {
+		*sk = crypto.Secp256k1PrivateKey{}
+	}
 }
